@@ -151,9 +151,10 @@ def check_case(case, info=None):
     try:
         has_fail = 'FAILED' in case['batch']
         parsed_only = dict(case, batch=[s for s in case['batch'] if s != 'FAILED'])
+        the_batch = build_batch(case)        # one result object rendered in every offered format, as the CLI user would
         for fmt in cli_formats()[system]:
             try:
-                text = to_string(build_batch(case), format=fmt)
+                text = to_string(the_batch, format=fmt)
             except Exception as ex:
                 # which sentence is responsible?
                 culprit = 'derivation'
@@ -274,7 +275,7 @@ def _shard(ctx, shard, nshards):
 
     def factory():
         @seed(runner.hseed(ctx, 19))
-        @runner.hsettings(ctx.scale(700, 4000))
+        @runner.hsettings(ctx.scale(700, 12000))
         @given(tapes(1500))
         def test(data):
             case = build_case(data)
